@@ -286,6 +286,9 @@ pub fn eval(case: &Case, st: &mut Stats) -> Result<(), String> {
                             let strip = |s: &str| s.rsplit_once("|warn=").map(|x| x.0.to_string()).unwrap_or_default();
                             ensure_eq!(strip(&obs), strip(&of), "declared {:?} / life {}: results differ from a fresh undeclared generator fed the same {} bytes", declared, life_no, fed);
                             st.class(if declared.is_some() { "finalize:ok_declared" } else { "finalize:ok_undeclared" });
+                            if r.log == 30 && s.lasth && s.cnt_next == 0 && !s.rend_zero {
+                                st.class(if life_no > 0 { "bh2_from_last_hash_after_reset" } else { "bh2_from_last_hash" });
+                            }
                             if life_no == 0 {
                                 first_life_marks.0 |= s.eliminated > 0;
                                 first_life_marks.1 |= s.lasth;
@@ -344,7 +347,24 @@ fn life(wt: u64, max_n: u32, huge: bool) -> impl Strategy<Value = Vec<SegSpec>> 
         1 => Just(Prog { wt, toks: vec![], target: None, pad_zeros: true, pad_seed: 0 }),
     ];
     if huge {
-        (
+        // one in three huge lives ends at the largest block size with block hash 2 taken from the
+        // dedicated last-piece hash: > 96 GiB of zeros, >= 32 level-30 words, non-zero final rolling value
+        let top = (any::<bool>(), 0u64..(90u64 << 30), 32u8..=70, any::<u64>(), 0u8..4, 1u32..9, any::<u64>()).prop_map(move |(w30_first, extra, n30, order, filler, tail_n, tail_seed)| {
+            let mut v = Vec::new();
+            if w30_first {
+                v.push(SegSpec::Prog(Prog { wt, toks: vec![Tok::Word { level: 30, variant: 1 }], target: None, pad_zeros: true, pad_seed: 0 }));
+            }
+            v.push(SegSpec::Zeros((96u64 << 30) + 1 + extra));
+            v.push(SegSpec::Prog(Prog {
+                wt,
+                toks: vec![Tok::Aimed { t: 30, c_hi: 0, c_mid: n30, c_lo: n30, order, filler }, Tok::Rand { seed: tail_seed, n: tail_n }],
+                target: None,
+                pad_zeros: true,
+                pad_seed: 0,
+            }));
+            v
+        });
+        let general = (
             prog,
             prop_oneof![
                 3 => (28u32..=37, any::<u64>()).prop_map(|(b, r)| (1u64 << b) + r % (1u64 << b)),
@@ -360,8 +380,8 @@ fn life(wt: u64, max_n: u32, huge: bool) -> impl Strategy<Value = Vec<SegSpec>> 
                 } else {
                     vec![SegSpec::Prog(p1), SegSpec::Zeros(z), SegSpec::Prog(p2)]
                 }
-            })
-            .boxed()
+            });
+        prop_oneof![2 => general, 1 => top].boxed()
     } else {
         prog.prop_map(|p| vec![SegSpec::Prog(p)]).boxed()
     }
